@@ -496,8 +496,9 @@ def load_known(prop):
     out = [k for k in vflib.load_known() if k.get("property") == prop]
     p = os.path.join(ROOT, "props", "known_%s.proposed.json" % prop)
     if os.path.exists(p):
-        have = {k["id"] for k in out}
-        out += [k for k in json.load(open(p)) if k["id"] not in have]
+        prop_entries = json.load(open(p))
+        ids = {k["id"] for k in prop_entries}
+        out = [k for k in out if k["id"] not in ids] + prop_entries      # a proposed entry updates the committed one of the same id
     return out
 
 
